@@ -414,6 +414,31 @@ def verdictHead [DecidableEq α] (t : Table α) (n m : Int) (o : CallObs α) : V
 def holdsHead [DecidableEq α] (t : Table α) (n m : Int) (o : CallObs α) : Bool :=
   (verdictHead t n m o).isNone
 
+/-- what a table answers through its OWN by-ID lookups: `index(id)` for every ID it lists (`none` = the
+lookup raised), optionally `data(id)` for every ID, and the IDs removed by the operation that `exists`
+still reports -/
+structure Lookups (α : Type) where
+  obsIndex : List (Option Nat)
+  sampIndex : List (Option Nat)
+  obsData : Option (List (Option (List α)))
+  sampData : Option (List (Option (List α)))
+  stale : List Id
+
+/-- the table's own lookups agree with its positional content: `index(ids[i]) = i`, `data(ids[i])` is
+vector `i`, and no removed ID is still known -/
+def holdsLookups [DecidableEq α] (r : Table α) (lk : Lookups α) : Bool :=
+  eqb lk.obsIndex ((List.range r.obs.length).map some) &&
+  eqb lk.sampIndex ((List.range r.samp.length).map some) &&
+  (match lk.obsData with | none => true | some d => eqb d (r.rows.map some)) &&
+  (match lk.sampData with | none => true | some d => eqb d ((vecs r .samp).map some)) &&
+  eqb lk.stale []
+
+/-- the model's lookups: positions and vectors found BY ID in the table -/
+def lookupsOf (r : Table α) (removedObs removedSamp : List Id) : Lookups α :=
+  { obsIndex := r.obs.map (indexOf? r.obs), sampIndex := r.samp.map (indexOf? r.samp),
+    obsData := some (r.obs.map (r.vec? .obs)), sampData := some (r.samp.map (r.vec? .samp)),
+    stale := removedObs.filter (fun id => r.obs.contains id) ++ removedSamp.filter (fun id => r.samp.contains id) }
+
 /-- kernel level, ID collections: the output is a well-formed matrix whose dense content is the
 input's content restricted to the requested vectors; ids and metadata are compressed alike -/
 def holdsKernelIds [Zero α] [DecidableEq α] (cs : CS α) (ids : List Id) (md : Option (List Md))
@@ -529,6 +554,23 @@ def resEq (a b : Except Err (Table Rat)) : Bool :=
   | .error e, .error f => e == f
   | _, _ => false
 
+def asLookups (j : Json) : R (Lookups Rat) := do
+  pure { obsIndex := (← listF (asOpt asNat) j "obs_index"), sampIndex := (← listF (asOpt asNat) j "samp_index"),
+         obsData := (← optF (asList (asOpt (asList asRat))) j "obs_data"),
+         sampData := (← optF (asList (asOpt (asList asRat))) j "samp_data"),
+         stale := (← listF asStr j "stale") }
+
+/-- `result_lk` / `after_lk` of an observation: the own-lookup views of the returned table and of the
+receiver afterwards -/
+def lookupVerdict (oj : Json) (result : Except Err (Table Rat)) (after : Table Rat) : R Verdict := do
+  let v1 ← match optFld oj "result_lk", result with
+    | some l, .ok r => do pure (chk "own-lookups-of-the-result" (holdsLookups r (← asLookups l)))
+    | _, _ => pure none
+  let v2 ← match optFld oj "after_lk" with
+    | some l => do pure (chk "own-lookups-of-the-receiver" (holdsLookups after (← asLookups l)))
+    | none => pure none
+  pure (Verdict.and v1 v2)
+
 def handleFilter (req : Json) : R Json := do
   let t ← asTable (← fld req "t")
   let ax ← axisF req "axis"
@@ -542,7 +584,7 @@ def handleFilter (req : Json) : R Json := do
   let obs : FilterObs Rat := {
     result := (← asResult (← fld oj "result")), after := (← asTable (← fld oj "after")), calls := calls,
     viaIds := (← optF asResult oj "via_ids") }
-  let v := verdictFilter t ax keep invert inplace obs
+  let v := Verdict.and (verdictFilter t ax keep invert inplace obs) (← lookupVerdict oj obs.result obs.after)
   let m := modelFilterObs t layout ax keep invert inplace
   let agree := resEq m.result obs.result && m.after == obs.after && m.calls == obs.calls &&
     (match m.viaIds, obs.viaIds with
@@ -565,7 +607,7 @@ def handleRemoveEmpty (req : Json) : R Json := do
   let inplace ← boolF req "inplace"
   let oj ← fld req "obs"
   let obs : CallObs Rat := { result := (← asResult (← fld oj "result")), after := (← asTable (← fld oj "after")) }
-  let v := verdictRemoveEmpty t which inplace obs
+  let v := Verdict.and (verdictRemoveEmpty t which inplace obs) (← lookupVerdict oj obs.result obs.after)
   let m := modelCallObs t (removeEmpty t canonLayout which) inplace
   let agree := resEq m.result obs.result && m.after == obs.after
   pure (answer v agree (Json.mkObj [("result", resultToJson m.result), ("after", tableToJson m.after)])
@@ -577,7 +619,7 @@ def handleHead (req : Json) : R Json := do
   let m ← intF req "m"
   let oj ← fld req "obs"
   let obs : CallObs Rat := { result := (← asResult (← fld oj "result")), after := (← asTable (← fld oj "after")) }
-  let v := verdictHead t n m obs
+  let v := Verdict.and (verdictHead t n m obs) (← lookupVerdict oj obs.result obs.after)
   let mo := modelCallObs t (head t (canonLayout t .obs) (fun t1 => canonLayout t1 .samp) n m) false
   let agree := resEq mo.result obs.result && mo.after == obs.after
   pure (answer v agree (Json.mkObj [("result", resultToJson mo.result), ("after", tableToJson mo.after)])
